@@ -1,5 +1,6 @@
 import VlsModel.Model.Velocity
 import VlsModel.Gen.FnVelocity
+import VlsModel.Gen.FnPersistModel
 import VlsModel.Lemmas.FnGen
 /-
 C12 — the hand-written model `Model/Velocity.lean` proved equal to the function bodies that
@@ -148,5 +149,43 @@ theorem C12_fn_insert (g : VelocityControl) (now amt : Nat) :
         simp only [Rs.index, Rs.setIndex, List.getElem?_cons_zero, Rs.bind_ok, Rs.pure_eq, List.length_cons,
           Nat.zero_lt_succ, if_true, List.set_cons_zero]
         split <;> simp_all [toRes, toVC]
+
+
+/-! ## The persisted form of a control (vls-persist/src/model.rs), translated from the source on every run
+
+`impl From<CoreVelocityControl> for VelocityControl` is what `NodeStateEntry::from` applies to both controls of the node
+before they are written, `impl From<VelocityControl> for CoreVelocityControl` what `get_nodes` applies to the stored entry
+before `NodeState::restore` / `Node::new_full` hand it to `update_spec`. -/
+section PersistedControl
+open VlsModel.Gen
+
+/-- the control of velocity.rs seen as the `CoreVelocityControl` of model.rs (the same Rust struct under its `use … as` name;
+    both generated structures are read from `vls-core/src/util/velocity.rs`) -/
+def toCore (g : VelocityControl) : FnPersistModel.CoreVelocityControl :=
+  { start_sec := g.start_sec, bucket_interval := g.bucket_interval, buckets := g.buckets, limit := g.limit }
+def ofCore (c : FnPersistModel.CoreVelocityControl) : VelocityControl :=
+  { start_sec := c.start_sec, bucket_interval := c.bucket_interval, buckets := c.buckets, limit := c.limit }
+
+/-- **C12_fn_persisted_control_roundtrip**: `restore ∘ persist = id` for a velocity control, on the conversions as they are
+    in the source now — no field is dropped, defaulted or swapped in either direction, so the control a restarted signer
+    hands to `update_spec` is the model control `toVC g` the running signer had (start, bucket interval, every bucket,
+    limit): the amount already counted survives.  (The other direction: what is read back and written again is the same
+    entry.) -/
+theorem C12_fn_persisted_control_roundtrip (g : VelocityControl) (e : FnPersistModel.VelocityControl) :
+    FnPersistModel.CoreVelocityControl.«from» (FnPersistModel.VelocityControl.«from» (toCore g)) = toCore g ∧
+    toVC (ofCore (FnPersistModel.CoreVelocityControl.«from» (FnPersistModel.VelocityControl.«from» (toCore g)))) = toVC g ∧
+    FnPersistModel.VelocityControl.«from» (FnPersistModel.CoreVelocityControl.«from» e) = e :=
+  ⟨rfl, rfl, rfl⟩
+
+/-- the persisted entry carries the four numbers of the model control, field by field -/
+theorem C12_fn_persisted_control_fields (g : VelocityControl) :
+    let e := FnPersistModel.VelocityControl.«from» (toCore g)
+    e.start_sec = (toVC g).start ∧ e.bucket_interval = (toVC g).bi ∧ e.buckets = (toVC g).buckets ∧ e.limit = (toVC g).limit :=
+  ⟨rfl, rfl, rfl, rfl⟩
+
+/-- non-vacuity: a control with counted amounts comes back with them -/
+example : toVC (ofCore (FnPersistModel.CoreVelocityControl.«from» (FnPersistModel.VelocityControl.«from»
+    (toCore ⟨7200, 300, [5, 0, 900], 1000⟩)))) = ⟨7200, 300, [5, 0, 900], 1000⟩ := rfl
+end PersistedControl
 
 end VlsModel.Props.C12Fn
